@@ -67,13 +67,15 @@ Proof.
     apply Z.leb_le in H1; apply Z.leb_le in H2; apply sext_id; cbn; lia.
 Qed.
 
-(* a 1-D element store of a signed type is as the property demands, reads included *)
-Lemma elem1_signed_refines_l t v : uns t = false ->
-  mech_store PElem1 t v = coerce t v /\ mech_store PElem1Compound t v = coerce t v.
+(* a 1-D element store of a signed type - by assignment, compound assignment, ++/--, array literal -
+   is as the property demands, reads included *)
+Lemma elem1_signed_refines_l p t v : In p element_paths -> uns t = false -> mech_store p t v = coerce t v.
 Proof.
-  intros Hu. cbn [mech_store]. rewrite clamp_check_is_coerce_l.
-  destruct (coerce t v) as [w| | | |] eqn:E; try (split; reflexivity).
-  rewrite (narrow_read_signed_id_l _ _ Hu (coerce_in_range _ _ _ E)). split; reflexivity.
+  intros Hp Hu. assert (H : mech_store p t v = match clamp_check t v with Val w => Val (narrow_read t w) | other => other end).
+  { cbn in Hp. repeat (destruct Hp as [<-|Hp]; [reflexivity|]). destruct Hp. }
+  rewrite H, clamp_check_is_coerce_l.
+  destruct (coerce t v) as [w| | | |] eqn:E; try reflexivity.
+  rewrite (narrow_read_signed_id_l _ _ Hu (coerce_in_range _ _ _ E)). reflexivity.
 Qed.
 
 (* an unsigned 1-D element below half of its range also reads back exactly *)
@@ -98,16 +100,9 @@ Definition tint := mk TInt false.
 Definition witness (p : path) : ty * Z :=
   match p with
   | PStatic => (utiny, -1)
-  | PIncDecVar => (tiny, 128)
-  | PIncDecElem1 => (tiny, 128)
-  | PReturn => (tiny, 128)
-  | PElem1 => (utiny, 254)
-  | PElem1Compound => (utiny, 254)
-  | PElemN => (tiny, 128)
-  | PLit1 => (tiny, 128)
-  | PLitN => (tiny, 128)
+  | PElem1 | PElem1Compound | PIncDecElem1 | PLit1 => (utiny, 254)
   | PGlobalArr => (tiny, 128)
-  | PAssignFromElemN => (tint, 4294967296)
+  | PAssignFromElemN | PReturnElemN => (tint, 4294967296)
   | _ => (tiny, 0)
   end.
 
@@ -117,32 +112,48 @@ Proof.
   intros H. cbn in H. repeat (destruct H as [<-|H]; [vm_compute; split; [reflexivity|discriminate]|]). destruct H.
 Qed.
 
-(* the concrete shapes of the failures *)
-Lemma incdec_is_checked_refuted_l :
-  mech_store PIncDecVar tiny 128 = Val 128 /\ coerce tiny 128 = Fail ERange /\ in_range tiny 128 = false.
-Proof. vm_compute. auto. Qed.
-Lemma incdec_element_is_checked_refuted_l :
-  mech_elem1_update PIncDecElem1 tiny 127 1 = Val (-128) /\ coerce tiny (127 + 1) = Fail ERange.
-Proof. vm_compute. auto. Qed.
-Lemma return_is_checked_refuted_l :
-  mech_store PReturn tiny 128 = Val 128 /\ coerce tiny 128 = Fail ERange.
-Proof. vm_compute. auto. Qed.
-Lemma multidim_store_is_checked_refuted_l :
-  mech_store PElemN tiny 128 = Val 128 /\ mech_store PLitN tiny (-129) = Val (-129) /\
-  coerce tiny 128 = Fail ERange /\ coerce tiny (-129) = Fail ERange.
-Proof. vm_compute. auto. Qed.
-Lemma array_literal_is_checked_refuted_l :
-  mech_store PLit1 tiny 128 = Val (-128) /\ mech_store PGlobalArr tint 2147483648 = Val (-2147483648) /\
-  coerce tiny 128 = Fail ERange /\ coerce tint 2147483648 = Fail ERange.
-Proof. vm_compute. auto. Qed.
+(* the repaired paths, by name (fixes 892a98c, 1b2d709, d7775cd, a6c628c, 11769f3) *)
+Lemma incdec_is_checked_l t v : mech_store PIncDecVar t v = coerce t v.
+Proof. apply clamp_check_is_coerce_l. Qed.
+Lemma return_is_checked_l t v : mech_store PReturn t v = coerce t v.
+Proof. apply clamp_check_is_coerce_l. Qed.
+Lemma multidim_store_is_checked_l t v : mech_store PElemN t v = coerce t v /\ mech_store PLitN t v = coerce t v.
+Proof. split; apply clamp_check_is_coerce_l. Qed.
+(* a[i]++ / a[i]--: the stored element plus or minus one is converted like any store; never a silent wrap *)
+Lemma incdec_element_is_checked_l t old delta :
+  (uns t = false -> mech_elem1_update PIncDecElem1 t old delta = coerce t (old + delta)) /\
+  (coerce t (old + delta) = Fail ERange -> mech_elem1_update PIncDecElem1 t old delta = Fail ERange).
+Proof.
+  split.
+  - intros Hu. cbn [mech_elem1_update]. apply elem1_signed_refines_l; [cbn; auto|exact Hu].
+  - intros H. cbn [mech_elem1_update mech_store]. rewrite clamp_check_is_coerce_l, H. reflexivity.
+Qed.
+(* local array literals: every element is converted; out of range is an error for every element type *)
+Lemma array_literal_is_checked_l t v :
+  (uns t = false -> mech_store PLit1 t v = coerce t v) /\
+  (coerce t v = Fail ERange -> mech_store PLit1 t v = Fail ERange).
+Proof.
+  split.
+  - intros Hu. apply elem1_signed_refines_l; [cbn; auto|exact Hu].
+  - intros H. cbn [mech_store]. rewrite clamp_check_is_coerce_l, H. reflexivity.
+Qed.
+
+(* the concrete shapes of the remaining failures *)
+Lemma global_array_literal_is_checked_refuted_l :
+  mech_store PGlobalArr tiny 128 = Val (-128) /\ mech_store PGlobalArr tint 2147483648 = Val (-2147483648) /\
+  mech_store PGlobalArr utiny (-1) = Val (-1) /\
+  coerce tiny 128 = Fail ERange /\ coerce tint 2147483648 = Fail ERange /\ coerce utiny (-1) = Val 0.
+Proof. vm_compute. auto 10. Qed.
 Lemma unsigned_element_reads_back_refuted_l :
   in_range utiny 254 = true /\ coerce utiny 254 = Val 254 /\ mech_store PElem1 utiny 254 = Val (-2) /\
-  in_range utiny (-2) = false /\ mech_elem1_update PElem1Compound utiny 244 10 = Val 0.
-Proof. vm_compute. auto. Qed.
+  in_range utiny (-2) = false /\ mech_elem1_update PElem1Compound utiny 244 10 = Val 0 /\
+  mech_store PLit1 utiny 254 = Val (-2) /\ mech_elem1_update PIncDecElem1 utiny 253 1 = Val (-2).
+Proof. vm_compute. auto 10. Qed.
 Lemma static_unsigned_clamps_refuted_l :
   mech_store PStatic utiny (-1) = Val (-1) /\ coerce utiny (-1) = Val 0.
 Proof. vm_compute. auto. Qed.
 Lemma bare_multidim_value_is_checked_refuted_l :
-  mech_store PAssignFromElemN tint 4294967296 = Val 4294967296 /\ coerce tint 4294967296 = Fail ERange /\
+  mech_store PAssignFromElemN tint 4294967296 = Val 4294967296 /\ mech_store PReturnElemN tint 4294967296 = Val 4294967296 /\
+  coerce tint 4294967296 = Fail ERange /\
   mech_store PAssignFromElemN tiny (-129) = Fail ERange /\ mech_store PAssignFromElemN tiny 128 = Fail ERange.
-Proof. vm_compute. auto. Qed.
+Proof. vm_compute. auto 10. Qed.
